@@ -198,4 +198,35 @@ def route (l : Kind) (_o : Op) (r : Kind) : Route :=
   if isLow l && isLow r then (if l = .num && r = .num then .native else .interval)
   else if isLow l then .pboxRefl else .pboxFwd
 
+/-! ## histories: an operation applied to the result of a mixed-kind operation -/
+
+/-- the Python object an expression returned, as an operand of the next expression -/
+def Res.toOpd : Res → Opd
+  | .num c => .num c
+  | .ivl a b => .ivl a b
+  | .pbox p => .pbox p
+
+inductive Shape where
+  | left    -- (a op1 b) op2 c
+  | right   -- a op1 (b op2 c)
+  | reuse   -- (a op1 b) op2 a
+  deriving DecidableEq, Repr
+
+/-- two chained Python expressions under one ambient dependency -/
+def evalChain (steps : Nat) (d : Dep) (sh : Shape) (o1 o2 : Op) (a b c : Opd) : Except Err Res :=
+  match sh with
+  | .left => do let r ← evalOp steps d o1 a b; evalOp steps d o2 r.toOpd c
+  | .right => do let r ← evalOp steps d o2 b c; evalOp steps d o1 a r.toOpd
+  | .reuse => do let r ← evalOp steps d o1 a b; evalOp steps d o2 r.toOpd a
+
+/-- the same history with every operand converted first -/
+def specChain (steps : Nat) (d : Dep) (sh : Shape) (o1 o2 : Op) (a b c : Opd) : Except Err PB := do
+  let x ← convert steps a
+  let y ← convert steps b
+  let z ← convert steps c
+  match sh with
+  | .left => do let r ← binop steps o1 d x y; binop steps o2 d r z
+  | .right => do let r ← binop steps o2 d y z; binop steps o1 d x r
+  | .reuse => do let r ← binop steps o1 d x y; binop steps o2 d r x
+
 end Pun.Hier
